@@ -409,3 +409,105 @@ func RunPoolUAF(p *Prog, r *Report, scope func(pkg string) bool) {
 	}
 	r.Extra["pool_release_sites"] = n
 }
+
+// POOL-DOUBLE: an object must be handed back to a pool once. A release that a function defers runs on every
+// return; if the same object (or an element of the same container) is also released in the body — typically on an
+// error path — the pool then owns the object twice and hands it to two users at the same time.
+func RunPoolDouble(p *Prog, r *Report, scope func(pkg string) bool) {
+	const rule = "POOL-DOUBLE"
+	e := newPoolEngine(p)
+	canon := func(v ssa.Value) (ssa.Value, string) {
+		kind := "value"
+		for d := 0; d < 8; d++ {
+			switch x := v.(type) {
+			case *ssa.UnOp:
+				if x.Op != token.MUL {
+					return v, kind
+				}
+				switch a := x.X.(type) {
+				case *ssa.IndexAddr:
+					kind = "element"
+					v = a.X
+					continue
+				case *ssa.Alloc:
+					return a, kind
+				case *ssa.FreeVar:
+					if b := closureBinding(a); b != nil {
+						return b, kind
+					}
+					return a, kind
+				}
+				return v, kind
+			case *ssa.Slice:
+				v = x.X
+				continue
+			}
+			return v, kind
+		}
+		return v, kind
+	}
+	n := 0
+	for _, fn := range p.Funcs {
+		pk := FuncPkg(fn)
+		if pk == nil || !scope(pk.Path()) || fn.Parent() != nil || len(fn.Blocks) == 0 {
+			continue
+		}
+		if o := fn.Origin(); o != nil && o != fn {
+			continue
+		}
+		deferredFns := map[*ssa.Function]bool{}
+		type site struct {
+			ins      ssa.Instruction
+			deferred bool
+		}
+		keys := map[ssa.Value][]site{}
+		var scan func(f *ssa.Function, deferred bool)
+		scan = func(f *ssa.Function, deferred bool) {
+			for _, b := range f.Blocks {
+				for _, ins := range b.Instrs {
+					if df, ok := ins.(*ssa.Defer); ok {
+						if mc, ok := df.Call.Value.(*ssa.MakeClosure); ok {
+							if af, ok := mc.Fn.(*ssa.Function); ok {
+								deferredFns[af] = true
+							}
+						}
+					}
+					c, ok := ins.(ssa.CallInstruction)
+					if !ok {
+						continue
+					}
+					_, isDefer := ins.(*ssa.Defer)
+					for _, root := range e.releasedRoots(c) {
+						k, _ := canon(root)
+						keys[k] = append(keys[k], site{ins, deferred || isDefer})
+					}
+				}
+			}
+		}
+		scan(fn, false)
+		for _, af := range fn.AnonFuncs {
+			scan(af, deferredFns[af])
+		}
+		for k, ss := range keys {
+			var def, plain []site
+			for _, s := range ss {
+				if s.deferred {
+					def = append(def, s)
+				} else {
+					plain = append(plain, s)
+				}
+			}
+			if len(def) == 0 {
+				continue
+			}
+			n++
+			key := "released:" + Desc(k)
+			if len(plain) > 0 {
+				r.Fail(rule, pk.Path(), FuncName(fn), key, p.Pos(plain[0].ins.Pos()), fmt.Sprintf("released here and again by the release deferred at %s: after this path the pool holds the same object twice and hands it to two users (concurrent or later solves alias each other's temporaries)", p.Pos(def[0].ins.Pos())))
+			} else {
+				r.Pass(rule, pk.Path(), FuncName(fn), key, p.Pos(def[0].ins.Pos()), "released by a deferred call only", true)
+			}
+		}
+	}
+	r.Pass(rule, "-", "-", "scan", "-", fmt.Sprintf("%d deferred releases examined", n), false)
+}
